@@ -10,7 +10,7 @@ func init() {
 		Run: func(c *Ctx) {
 			depth := 5
 			if c.Thorough() {
-				depth = 6
+				depth = 7
 			}
 			alpha := []cliEv{
 				{K: "start", I: 0}, {K: "overwrite", I: 0}, {K: "setrto", Arg: 1},
